@@ -100,7 +100,7 @@ func VerifConcurrentAddFailRetry() {
 // the single-threaded harness in sequential.go.)
 func VerifConcurrentRestart() {
 	verif.Option("panic_is_violation", 1) // a panic must never end a path silently
-	verif.Option("max_preempt", verif.Bound("preemptions", 0, 1))
+	verif.Option("max_preempt", verif.Bound("preemptions_restart", 0, 0)) // (1 preemption: > 500k paths)
 	verif.Option("max_threads", 24)
 	w := &verifWorld{changed: make(chan struct{}, 64), symbolic: verif.Symbolic()}
 	m := w.newManager()
